@@ -373,8 +373,10 @@ def check_raw_buffer_reads(eng, run, rule="C10.flow"):
                 continue
             lv_alias = {t.id for a in own_nodes(fn.node) if isinstance(a, (ast.Assign, ast.AnnAssign)) and dotted(getattr(a, "value", None)) == f"{fn.self_name}.{level_a}"
                         for t in (a.targets if isinstance(a, ast.Assign) else [a.target]) if isinstance(t, ast.Name)}
+            raw_alias = {t.id for a in own_nodes(fn.node) if isinstance(a, (ast.Assign, ast.AnnAssign)) and dotted(getattr(a, "value", None)) == f"{fn.self_name}.{raw_a}"
+                         for t in (a.targets if isinstance(a, ast.Assign) else [a.target]) if isinstance(t, ast.Name)}
             for sub in own_nodes(fn.node):
-                if not (isinstance(sub, ast.Subscript) and dotted(sub.value) == f"{fn.self_name}.{raw_a}"):
+                if not (isinstance(sub, ast.Subscript) and (dotted(sub.value) == f"{fn.self_name}.{raw_a}" or (isinstance(sub.value, ast.Name) and sub.value.id in raw_alias))):
                     continue
                 n += 1
                 sl = sub.slice
@@ -382,8 +384,8 @@ def check_raw_buffer_reads(eng, run, rule="C10.flow"):
                 if isinstance(sl, ast.Slice) and sl.step is None:
                     up, lo = sl.upper, sl.lower
                     is_level = lambda e: e is not None and (dotted(e) == f"{fn.self_name}.{level_a}" or (isinstance(e, ast.Name) and e.id in lv_alias))  # noqa: E731
-                    if lo is None and is_level(up):
-                        ok = True  # the received part
+                    if lo is None and (is_level(up) or (isinstance(up, ast.Call) and isinstance(up.func, ast.Name) and up.func.id == "min" and any(is_level(a) for a in up.args))):
+                        ok = True  # the received part (or a prefix of it)
                     elif up is None and is_level(lo) and fn is gb:
                         ok = True  # the free window, handed to the loop
                 if not ok:
